@@ -194,7 +194,21 @@ def _iter_sources(it: ast.AST) -> t.List[t.Tuple[ast.AST, str]]:
 
 
 def rule_c02_r2(model: Model) -> RuleResult:
-    r = RuleResult('C02-R2', 'every structural use of the raw input is dominated by a kind gate that excludes text', floor=20)
+    return _rule_structural_uses(model, False)
+
+
+def rule_c09_r3(model: Model) -> RuleResult:
+    """C09 / C03: the two passes each walk the input once; an input admitted merely as "iterable" (a generator, a file, a map object)
+    is consumed by the first walk: the caller's value is exhausted and the second pass sees nothing."""
+    return _rule_structural_uses(model, True)
+
+
+def _rule_structural_uses(model: Model, reiterable: bool) -> RuleResult:
+    if reiterable:
+        r = RuleResult('C09-R3', 'the raw input is iterated only behind a gate that admits re-iterable values (sequence / mapping), never a bare iterable',
+                       floor=20)
+    else:
+        r = RuleResult('C02-R2', 'every structural use of the raw input is dominated by a kind gate that excludes text', floor=20)
     zone = conversion_zone(model)
     for cls in family(model):
         funcs = {f.name: f for f in zone[cls.qualname]}
@@ -235,6 +249,14 @@ def rule_c02_r2(model: Model) -> RuleResult:
                 need_map = ukind == 'map'
                 ok = ('map' in kinds) if need_map else bool(kinds & {'seq', 'map', 'iter'} or ({'weakseq', 'nottext'} <= kinds))
                 r.sample({'function': f.qualname, 'use': text, 'gates': sorted(kinds)})
+                if reiterable:
+                    if not ok or kinds & {'seq', 'map', 'weakseq'}:
+                        r.ok()      # (ungated uses are C02-R2's finding)
+                    else:
+                        r.fail(f.qualname, f"{ukind} use `{text}` behind {sorted(kinds)} only", f.loc(sub),
+                               "a one-shot iterable (generator, iterator, map object) is admitted and consumed: the caller's value is empty "
+                               "afterwards, and when the fast pass fails half-way the diagnostic pass sees only the rest")
+                    continue
                 if ok:
                     r.ok()
                 else:
